@@ -3,10 +3,15 @@ import JokerVerif.Lemmas.DataLemmas
 # C08 — multi-survey data keep every observation tied to its own survey offset
 
 Property theorems only.  `svs` = the sources in the order given (`(key, survey)`; for list input the keys are
-`0, 1, …`), each source an `RVData` with 1-D errors (`WellFormed`: its three arrays have one length).  All
-statements hold for every number of sources, every size, every time layout (disjoint, interleaved, identical
-epochs in several sources) and **every** permutation `perm` the model accepts as the result of sorting the
-merged times (numpy's sort is not stable, so tied epochs may come out in any order).
+`0, 1, …`), each source an `RVData` with 1-D errors (`WellFormed`: its three arrays have one length).
+
+The property does not fix the order of the merged rows (time-sorted or concatenation order are both fine); what it
+demands is that rows and labels move together.  `perm` is therefore ANY permutation of the positions of the
+concatenation — the order in which the implementation holds the merged rows — and every theorem below holds for
+every such permutation, every number of sources, every size and every time layout (disjoint, interleaved,
+identical epochs in several sources).  `merge_sorted` of the design is kept in conditional form
+(`merge_sorted_of_sorting_perm`: the merged times are non-decreasing iff the implementation chose a sorting
+permutation) because sortedness is not part of C08 (for a single `RVData` it is C15's `sorted_by_time`).
 -/
 namespace Data
 variable {κ τ ν : Type} [LinearOrder κ] (le : τ → τ → Bool)
@@ -30,20 +35,21 @@ theorem merge_is_union (svs : List (κ × Survey τ ν)) (hwf : WellFormed svs) 
     (m.t.zip (m.rv.zip (m.err.zip m.ids))).Perm (labelled svs) := by
   rw [merge_pairing le svs hwf nOffsets perm m h]
   obtain ⟨_, _, hv, _⟩ := merge_ok le svs nOffsets perm m h
-  simp only [validPerm, Bool.and_eq_true] at hv
   obtain ⟨l1, l2, l3⟩ := cat_lengths svs hwf
   have hl : (labelled svs).length = (catT svs).length := by
     rw [labelled_eq_zip svs hwf]; simp only [List.length_zip]; omega
-  exact gather_perm perm _ (by rw [hl]; exact isPermOfRange_perm _ _ hv.1)
+  exact gather_perm perm _ (by rw [hl]; exact isPermOfRange_perm _ _ hv)
 
-/-- merged times are non-decreasing -/
-theorem merge_sorted (htrans : ∀ a b c, le a b = true → le b c = true → le a c = true)
+/-- (conditional form of the design's `merge_sorted`) if the order the implementation chose sorts the times, the
+merged times are non-decreasing; nothing in C08 requires that choice -/
+theorem merge_sorted_of_sorting_perm (htrans : ∀ a b c, le a b = true → le b c = true → le a c = true)
     (svs : List (κ × Survey τ ν)) (nOffsets : Nat) (perm : List Nat)
-    (m : Merged κ τ ν) (h : merge le svs nOffsets perm = .ok m) :
+    (m : Merged κ τ ν) (h : merge le svs nOffsets perm = .ok m)
+    (hsort : validPerm le (catT svs) perm = true) :
     m.t.Pairwise (fun a b => le a b = true) := by
-  obtain ⟨_, _, hv, ht, _⟩ := merge_ok le svs nOffsets perm m h
-  simp only [validPerm, Bool.and_eq_true] at hv
-  rw [ht]; exact isSorted_pairwise le htrans _ hv.2
+  obtain ⟨_, _, _, ht, _⟩ := merge_ok le svs nOffsets perm m h
+  simp only [validPerm, Bool.and_eq_true] at hsort
+  rw [ht]; exact isSorted_pairwise le htrans _ hsort.2
 
 /-- the keys that get a column are the keys of the sources, in increasing key order, each once -/
 theorem offset_order_is_key_order (svs : List (κ × Survey τ ν)) (nOffsets : Nat) (perm : List Nat)
@@ -52,7 +58,6 @@ theorem offset_order_is_key_order (svs : List (κ × Survey τ ν)) (nOffsets : 
     (uniq (catIds svs)).length = nOffsets + 1 ∧
     ∀ a, a ∈ uniq (catIds svs) ↔ ∃ p ∈ svs, p.1 = a ∧ p.2.t ≠ [] := by
   obtain ⟨_, hn, hv, _, _, _, hi, _⟩ := merge_ok le svs nOffsets perm m h
-  simp only [validPerm, Bool.and_eq_true] at hv
   refine ⟨?_, uniq_sorted _, hn, ?_⟩
   · rw [hi]
     apply uniq_congr
@@ -65,7 +70,7 @@ theorem offset_order_is_key_order (svs : List (κ × Survey τ ν)) (nOffsets : 
       -- every position occurs in an accepted permutation
       have hlen : (catIds svs).length = (catT svs).length := by
         simp only [catIds, catT, List.length_flatMap, List.length_replicate]
-      have hmem : i ∈ perm := (isPermOfRange_perm _ _ hv.1).mem_iff.mpr (List.mem_range.mpr (by omega))
+      have hmem : i ∈ perm := (isPermOfRange_perm _ _ hv).mem_iff.mpr (List.mem_range.mpr (by omega))
       unfold gather
       rw [List.mem_filterMap]
       exact ⟨i, hmem, hi'⟩
@@ -177,20 +182,19 @@ theorem list_input_rule [OfNat τ 0] [OfNat τ 1] (n s c : Nat) (hc : c < n) :
 
 /-- consequently the design matrix handed to the likelihood is the design matrix of the correctly labelled
 data: row `i` is built from the time **and the key of the very observation** stored in row `i`, relative to the
-earliest epoch of all sources -/
+earliest epoch of all sources — in whatever order the rows are held -/
 theorem likelihood_of_labelled_data [OfNat τ 0] [OfNat τ 1] [Sub τ] [Mul τ]
     (hrefl : ∀ a, le a a = true) (htrans : ∀ a b c, le a b = true → le b c = true → le a c = true)
+    (htotal : ∀ a b, (le a b || le b a) = true)
     (svs : List (κ × Survey τ ν)) (hwf : WellFormed svs) (nOffsets : Nat) (perm : List Nat)
     (m : Merged κ τ ν) (h : merge le svs nOffsets perm = .ok m) (p : Nat) :
     m.design p = (gather perm (labelled svs)).map
         (fun o => designRow (uniq (catIds svs)) p m.tref o.1 o.2.2.2) ∧
     m.tref ∈ catT svs ∧ ∀ x ∈ catT svs, le m.tref x = true := by
   obtain ⟨hu, _, _, _⟩ := offset_order_is_key_order le svs nOffsets perm m h
-  obtain ⟨_, _, hv, ht, hr, he, hi, hhead⟩ := merge_ok le svs nOffsets perm m h
-  have hsorted := merge_sorted le htrans svs nOffsets perm m h
-  simp only [validPerm, Bool.and_eq_true] at hv
+  obtain ⟨_, _, hv, ht, hr, he, hi, hmin⟩ := merge_ok le svs nOffsets perm m h
   obtain ⟨l1, l2, l3⟩ := cat_lengths svs hwf
-  have hlt : ∀ i ∈ perm, i < (catT svs).length := perm_lt_of_isPermOfRange _ _ hv.1
+  have hlt : ∀ i ∈ perm, i < (catT svs).length := perm_lt_of_isPermOfRange _ _ hv
   refine ⟨?_, ?_⟩
   · rw [← merge_pairing le svs hwf nOffsets perm m h]
     simp only [Merged.design, designOfRows, hu]
@@ -200,29 +204,38 @@ theorem likelihood_of_labelled_data [OfNat τ 0] [OfNat τ 1] [Sub τ] [Mul τ]
       (by rw [hi, ht, gather_length _ _ hlt, gather_length _ _ (by rw [l3]; exact hlt)])
     rw [← hz, List.map_map]
     rfl
-  · have hp : m.t.Perm (catT svs) := by rw [ht]; exact gather_perm perm _ (isPermOfRange_perm _ _ hv.1)
-    cases hmt : m.t with
-    | nil => rw [hmt] at hhead; simp at hhead
-    | cons m0 r =>
-      rw [hmt] at hhead hsorted hp
-      simp only [List.head?_cons, Option.some.injEq] at hhead
-      subst hhead
-      refine ⟨hp.subset List.mem_cons_self, ?_⟩
-      intro x hx
-      rcases List.mem_cons.mp (hp.symm.subset hx) with rfl | hx'
-      · exact hrefl _
-      · exact (List.pairwise_cons.mp hsorted).1 x hx'
+  · have hp : m.t.Perm (catT svs) := by rw [ht]; exact gather_perm perm _ (isPermOfRange_perm _ _ hv)
+    obtain ⟨h1, h2⟩ := minT_spec le htrans htotal hrefl m.t m.tref hmin
+    exact ⟨hp.subset h1, fun x hx => h2 x (hp.symm.subset hx)⟩
 
-/-- the nondeterministic model is not vacuous: for a total transitive order on times every set of sources
-without covariances, with at least one epoch and the declared number of offsets has an accepted run -/
-theorem merge_accepts_some_permutation (htrans : ∀ a b c, le a b = true → le b c = true → le a c = true)
+/-- the model is not vacuous: sources without covariances, with at least one epoch and the declared number of
+offsets are accepted in concatenation order (rows and labels exactly as concatenated) … -/
+theorem merge_accepts_concatenation_order
+    (svs : List (κ × Survey τ ν)) (nOffsets : Nat)
+    (hcov : ∀ p ∈ svs, p.2.hasCov = false) (hn : (uniq (catIds svs)).length = nOffsets + 1)
+    (hne : catT svs ≠ []) :
+    ∃ m, merge le svs nOffsets (List.range (catT svs).length) = .ok m ∧ m.t = catT svs ∧ m.ids = catIds svs := by
+  have hany : svs.any (fun p => p.2.hasCov) = false := by
+    simp only [List.any_eq_false]
+    intro p hp'
+    simp [hcov p hp']
+  have hg : gather (List.range (catT svs).length) (catT svs) = catT svs := gather_range _
+  have hgi : gather (List.range (catT svs).length) (catIds svs) = catIds svs := by
+    rw [← catIds_length]; exact gather_range _
+  unfold merge
+  simp only [hany, Bool.false_eq_true, if_false, hn, ne_eq, not_true_eq_false, isPermOfRange_range, Bool.not_true, hg, hgi]
+  cases hc : catT svs with
+  | nil => exact absurd hc hne
+  | cons a r => simp [minT]
+
+/-- … and, for a total transitive order on times, in time-sorted order as well -/
+theorem merge_accepts_time_sorted_order (htrans : ∀ a b c, le a b = true → le b c = true → le a c = true)
     (htotal : ∀ a b, (le a b || le b a) = true)
     (svs : List (κ × Survey τ ν)) (nOffsets : Nat)
     (hcov : ∀ p ∈ svs, p.2.hasCov = false) (hn : (uniq (catIds svs)).length = nOffsets + 1)
     (hne : catT svs ≠ []) :
-    ∃ perm m, merge le svs nOffsets perm = .ok m := by
+    ∃ perm m, merge le svs nOffsets perm = .ok m ∧ m.t.Pairwise (fun a b => le a b = true) := by
   obtain ⟨perm, hv⟩ := exists_validPerm le htrans htotal (catT svs)
-  refine ⟨perm, ?_⟩
   have hv' := hv
   simp only [validPerm, Bool.and_eq_true] at hv'
   have hp := gather_perm perm _ (isPermOfRange_perm _ _ hv'.1)
@@ -230,13 +243,16 @@ theorem merge_accepts_some_permutation (htrans : ∀ a b c, le a b = true → le
     simp only [List.any_eq_false]
     intro p hp'
     simp [hcov p hp']
-  unfold merge
-  simp only [hany, Bool.false_eq_true, if_false, hn, ne_eq, not_true_eq_false, hv, Bool.not_true]
-  cases hg : gather perm (catT svs) with
-  | nil =>
-    rw [hg] at hp
-    exact absurd hp.symm.eq_nil hne
-  | cons m r => simp
+  have hok : ∃ m, merge le svs nOffsets perm = .ok m := by
+    unfold merge
+    simp only [hany, Bool.false_eq_true, if_false, hn, ne_eq, not_true_eq_false, hv'.1, Bool.not_true]
+    cases hg : gather perm (catT svs) with
+    | nil =>
+      rw [hg] at hp
+      exact absurd hp.symm.eq_nil hne
+    | cons a r => simp [minT]
+  obtain ⟨m, hm⟩ := hok
+  exact ⟨perm, m, hm, merge_sorted_of_sorting_perm le htrans svs nOffsets perm m hm hv⟩
 
 /-! ### non-vacuity -/
 section Examples
@@ -258,6 +274,22 @@ example :
          ("a", { t := [3, 5], rv := [2000, 2001], err := [2, 2] })] 1 [0, 3, 4, 1, 2]).toOption.map
       (fun m => (m.rv, m.ids))
     = some ([1000, 2000, 2001, 1001, 1002], ["b", "a", "a", "b", "b"]) := by decide
+
+/-- concatenation order (identity permutation) is accepted just as well: rows and labels as concatenated, the
+reference epoch is still the earliest epoch (1) and the offset column follows the rows -/
+example :
+    (merge (κ := String) (fun (a b : Nat) => decide (a ≤ b))
+        [("b", { t := [5, 1, 9], rv := [1001, 1000, 1002], err := [1, 1, 1] }),
+         ("a", { t := [3, 5], rv := [2000, 2001], err := [2, 2] })] 1 [0, 1, 2, 3, 4]).toOption.map
+      (fun m => (m.t, m.ids, m.tref, (m.design 2 : List (List Nat))))
+    = some ([5, 1, 9, 3, 5], ["b", "b", "b", "a", "a"], 1,
+            [[1, 1, 4], [1, 1, 0], [1, 1, 8], [1, 0, 2], [1, 0, 4]]) := by decide
+
+/-- a list that is not a permutation of the positions (a row lost, another duplicated) is refused -/
+example :
+    (merge (κ := String) (fun (a b : Nat) => decide (a ≤ b))
+        [("b", { t := [5, 1, 9], rv := [1001, 1000, 1002], err := [1, 1, 1] }),
+         ("a", { t := [3, 5], rv := [2000, 2001], err := [2, 2] })] 1 [0, 1, 1, 3, 4]).toOption.isNone = true := by decide
 
 /-- list input: three sources, keys 0,1,2 -/
 example : uniq (catIds (listInput [({ t := [4, 6], rv := [0, 1], err := [1, 1] } : Survey Nat Nat),
